@@ -375,7 +375,7 @@ Section Obj.
   (* soundness of the constraint evaluation for this class (Proofs/SchemaConstr.v) *)
   Hypothesis Hcon : forall fuel setting,
       Inv setting ->
-      constr_all (eval_constr pok fuel c setting)
+      constr_all (eval_constr vr pok fuel c setting)
                  ((match cfamily c with FExt => [CAtLeastOneDefault] | _ => [] end) ++ ccons c) = Ok tt ->
       exists n, forallb (jconstr pok n sc (members setting))
                         ((match cfamily sc with FExt => [CAtLeastOneDefault] | _ => [] end) ++ ccons sc) = true.
@@ -410,7 +410,7 @@ Section Obj.
     Inv setting /\
     (forall s', In s' (cslots sc) -> spec_requires sc s' = true -> amem (sname s') setting = true) /\
     (forall s, In s (cslots c) -> default_present s = true -> amem (sname s) setting = true) /\
-    exists fuel, constr_all (eval_constr pok fuel c setting)
+    exists fuel, constr_all (eval_constr vr pok fuel c setting)
                             ((match cfamily c with FExt => [CAtLeastOneDefault] | _ => [] end) ++ ccons c) = Ok tt.
 
   Lemma construct_generic_facts fuel kwargs0 vrefs o :
